@@ -321,13 +321,20 @@ theorem Qt.hit (s : S Rat) (src tgt : Int) : Qt cfg x0 s (hit cfg s src tgt) := 
   dsimp only
   exact Qt.trans (Qt.trans (Qt.emit (by qsame) _ (by rfl)) (Qt.hpSet _ _ _ _ _)) (Qt.hitEnd _ _ _ _ _)
 
+theorem Qt.counters (s : S Rat) (src : Int) (ts : List Int) : Qt cfg x0 s (counters cfg s src ts) := by
+  unfold Sim.counters
+  refine Qt.foldl _ (fun s t => ?_) _ _
+  split
+  · exact Qt.hit s t src
+  · exact Qt.refl s
+
 theorem Qt.attack (s : S Rat) (src : Int) (ts : List Int) (ty : Nat) : Qt cfg x0 s (attack cfg s src ts ty) := by
   unfold Sim.attack
   split
   · exact Qt.refl s
   · refine Qt.trans ?_ (Qt.foldl _ (fun s t => Qt.hit s src t) _ _)
     split
-    · exact Qt.emit (by qsame) _ (by rfl)
+    · exact Qt.trans (Qt.counters s src ts) (Qt.emit (by qsame) _ (by rfl))
     · exact Qt.refl s
 
 theorem Qt.endAttack (s : S Rat) : Qt cfg x0 s (endAttack s) := by
